@@ -11,7 +11,7 @@
        eokn d e;
    eokn (d+1): an inline expression of ArgsNest.binl (aokn d) (simple, or a call with arguments of aokn d), a
        placeable around an expression of eokn d, a select expression whose selector is of ArgsNest.bsl (aokn d)
-       and whose variant values are patterns (RoundTripML.ml_pattern) with placeables of eokn d.
+       and whose variant values are patterns (RoundTripML.wl_pattern) with placeables of eokn d.
      1. the parser on selectors and placeables (generic in the argument class)
      2. the classes, their layouts, render
      3. all facts by induction on the depth
@@ -81,7 +81,7 @@ Hypothesis Haparse : forall i X b c t p n,
   exists i' q, get_inline_expression bs n false p = Ok i' q /\ irel agood i' i /\
                (q = length X + p \/ q = length X + length b + p).
 Hypothesis Hpat : forall els V T used c nx p n,
-  ml_pattern eok (Pattern els) = true -> ml_value_layout etext els V -> after_value T used c nx -> at_ bs p (V ++ T) ->
+  wl_pattern eok (Pattern els) = true -> wl_value_layout etext els V -> after_value T used c nx -> at_ bs p (V ++ T) ->
   3 * length (V ++ T) + 12 <= n ->
   exists els', get_pattern bs n p = Ok (Some (Pattern els')) (used + (length V + p)) /\ srel egood els' els.
 
@@ -151,7 +151,7 @@ Qed.
 (* ---- a placeable with a select expression, from behind its "{" ---- *)
 Lemma gget_expression_select sel vs X b2 rest p n :
   bsl aok sel = true -> count_defaults vs = 1 -> forallb (variant_ok eok) vs = true ->
-  gselect_layout atext (ml_value_layout etext) (Select sel vs) X -> all_blank b2 ->
+  gselect_layout atext (wl_value_layout etext) (Select sel vs) X -> all_blank b2 ->
   at_ bs p (X ++ b2 ++ 125%N :: rest) -> 3 * length (X ++ b2 ++ 125%N :: rest) + 7 <= n ->
   exists sel' vs', get_expression bs n p = Ok (Select sel' vs') (length (X ++ b2) + p) /\ crel sel' sel /\
                    Forall2 (vrel egood) vs' vs.
@@ -207,7 +207,7 @@ Qed.
 
 Lemma gget_placeable_select sel vs X b1 b2 rest p n :
   bsl aok sel = true -> count_defaults vs = 1 -> forallb (variant_ok eok) vs = true ->
-  gselect_layout atext (ml_value_layout etext) (Select sel vs) X -> all_blank b1 -> all_blank b2 ->
+  gselect_layout atext (wl_value_layout etext) (Select sel vs) X -> all_blank b1 -> all_blank b2 ->
   at_ bs p (b1 ++ X ++ b2 ++ 125%N :: rest) -> 3 * length (b1 ++ X ++ b2 ++ 125%N :: rest) + 8 <= n ->
   exists sel' vs', get_placeable bs n p = Ok (Select sel' vs') (S (length (b1 ++ X ++ b2) + p)) /\ crel sel' sel /\
                    Forall2 (vrel egood) vs' vs.
@@ -293,12 +293,12 @@ Variable atext : inline -> bytes -> Prop.
 Variable eok : expression -> bool.
 Variable etext : expression -> bytes -> Prop.
 Hypothesis Harender : forall i cs, aok i = true -> exists X cs', render_inline i cs = (X, cs') /\ atext i X.
-Hypothesis HrenderV : forall base els cs, ml_pattern eok (Pattern els) = true ->
-  exists L cs', render_pattern_inline base (Pattern els) cs = (L, cs') /\ ml_line_layout etext base els L.
+Hypothesis HrenderV : forall ind els cs, wl_pattern eok (Pattern els) = true -> 1 <= ind ->
+  exists V cs', render_value ind (Pattern els) cs = (V, cs') /\ wl_value_layout etext els V.
 
 Lemma grender_select_layout ind sel vs cs :
   bsl aok sel = true -> forallb (variant_ok eok) vs = true -> vs <> [] ->
-  exists X cs', render_expr ind (Select sel vs) cs = (X, cs') /\ gselect_layout atext (ml_value_layout etext) (Select sel vs) X.
+  exists X cs', render_expr ind (Select sel vs) cs = (X, cs') /\ gselect_layout atext (wl_value_layout etext) (Select sel vs) X.
 Proof.
   intros Hsel Hvs Hne. rewrite render_expr_select.
   destruct (grender_bsl aok atext Harender sel cs Hsel) as (Xs & cs0 & E0 & HXs). rewrite (rbind_eq _ _ _ _ _ E0).
@@ -368,7 +368,7 @@ with etextn (d : nat) : expression -> bytes -> Prop :=
       (exists i, e = Inline i /\ gitext (atextn d') i X) \/
       (exists e1 b1 b2 X1, e = Inline (Placeable e1) /\ all_blank b1 /\ all_blank b2 /\ etextn d' e1 X1 /\
                            X = 123%N :: b1 ++ X1 ++ b2 ++ [125%N]) \/
-      gselect_layout (atextn d') (ml_value_layout (etextn d')) e X
+      gselect_layout (atextn d') (wl_value_layout (etextn d')) e X
   end.
 
 (* what is known of the parser's result besides that it joins to the printed tree: at every nesting level, the
@@ -611,19 +611,19 @@ Qed.
 Lemma gwf_select aok sel vs :
   (forall i, aok i = true -> wf_inline i = true /\ lines_ok_inline i = true) ->
   bsl aok sel = true -> count_defaults vs = 1 ->
-  Forall (fun v => match v with Variant k p _ => key_ok k = true /\ wf_value p = true end) vs ->
+  Forall (fun v => match v with Variant k p _ => key_ok k = true /\ wf_pattern p && lines_ok_pattern p = true end) vs ->
   wf_expr (Select sel vs) = true /\ lines_ok_expr (Select sel vs) = true.
 Proof.
   intros Hawf Hsel Hcnt Hvs. destruct (gwf_bsl aok Hawf sel Hsel) as (W1' & W2 & Wk).
   cbn [wf_expr lines_ok_expr]. rewrite W1', W2, Hcnt, Wk. cbn [Nat.eqb andb].
   cbn [andb]. clear Hcnt. split.
   - induction Hvs as [|v r Hv Hr IH]; [reflexivity|]. destruct v as [k p d0]. destruct Hv as [Hk Hp].
-    unfold wf_value in Hp. apply andb_prop in Hp as [Hp _]. cbn [wf_variant].
+    apply andb_prop in Hp as [Hp _]. cbn [wf_variant].
     replace (match k with KeyIdentifier n => wf_identifier n | KeyNumber n => wf_number n end) with true
       by (destruct k; symmetry; exact Hk).
     rewrite Hp. cbn [andb]. exact IH.
   - induction Hvs as [|v r Hv Hr IH]; [reflexivity|]. destruct v as [k p d0]. destruct Hv as [Hk Hp].
-    unfold wf_value in Hp. apply andb_prop in Hp as [_ Hp]. rewrite Hp. cbn [andb]. exact IH.
+    apply andb_prop in Hp as [_ Hp]. rewrite Hp. cbn [andb]. exact IH.
 Qed.
 
 Lemma efacts_S d :
@@ -632,17 +632,17 @@ Lemma efacts_S d :
   render_factn (S d) /\ join_factn (S d) /\ wf_factn (S d) /\ place_factn (S d).
 Proof.
   intros AH AP AR AJ AW R J W P.
-  assert (HrenderV : forall base els cs, ml_pattern (eokn d) (Pattern els) = true ->
-            exists L cs', render_pattern_inline base (Pattern els) cs = (L, cs') /\ ml_line_layout (etextn d) base els L).
-  { intros base els cs Hp. destruct (ml_pattern_parts _ els Hp) as (_ & Hs & _).
-    apply (render_els_ml_layout (eokn d) (etextn d) R base els false cs Hs). }
-  assert (Hwfp : forall els, ml_pattern (eokn d) (Pattern els) = true -> wf_value (Pattern els) = true).
-  { intros els Hp. apply (ml_pattern_wf (eokn d) (etextn d) (goodn d)); assumption. }
+  assert (HrenderV : forall ind els cs, wl_pattern (eokn d) (Pattern els) = true -> 1 <= ind ->
+            exists V cs', render_value ind (Pattern els) cs = (V, cs') /\ wl_value_layout (etextn d) els V).
+  { intros ind els cs Hp Hind. apply (render_value_wl_layout (eokn d) (etextn d) (goodn d) R P ind els cs Hp Hind). }
+  assert (Hwfp : forall els, wl_pattern (eokn d) (Pattern els) = true ->
+            wf_pattern (Pattern els) && lines_ok_pattern (Pattern els) = true).
+  { intros els Hp. apply (wl_pattern_wf (eokn d) (etextn d) (goodn d)); assumption. }
   assert (Hpat : forall bs els V T used c nx p n,
-            ml_pattern (eokn d) (Pattern els) = true -> ml_value_layout (etextn d) els V -> after_value T used c nx ->
+            wl_pattern (eokn d) (Pattern els) = true -> wl_value_layout (etextn d) els V -> after_value T used c nx ->
             at_ bs p (V ++ T) -> 3 * length (V ++ T) + 12 <= n ->
             exists els', get_pattern bs n p = Ok (Some (Pattern els')) (used + (length V + p)) /\ srel (goodn d) els' els).
-  { intros bs els V T used c nx p n. apply (get_pattern_ml (eokn d) (etextn d) (goodn d)); assumption. }
+  { intros bs els V T used c nx p n. apply (get_pattern_wl (eokn d) (etextn d) (goodn d)); assumption. }
   split; [|split; [|split]].
   - (* render *)
     intros base e cs He. destruct (eokn_S_cases d e He) as [(i & -> & Hi) | [(e1 & -> & He1) | (sel & vs & -> & Hsel & Hcnt & Hvs)]].
@@ -698,7 +698,7 @@ Proof.
       * apply (get_placeable_nested (eokn d) (etextn d) (goodn d) bs (Hpat bs) e1' c1 X1 c2 b1 b2 rest p n Hb1 Hb2 H E1).
       * change (join_expr (Inline (Placeable e1'))) with (Inline (Placeable (join_expr e1'))). rewrite Ej. reflexivity.
       * exact Hg.
-    + assert (HXs : gselect_layout (atextn d) (ml_value_layout (etextn d)) (Select sel vs) X).
+    + assert (HXs : gselect_layout (atextn d) (wl_value_layout (etextn d)) (Select sel vs) X).
       { destruct HX as [(i0 & E & _) | [(e1' & c1 & c2 & X1 & E & _) | HX]]; [discriminate E | discriminate E | exact HX]. }
       destruct (gget_placeable_select (aokn d) (atextn d) (gooda d) (eokn d) (etextn d) (goodn d) bs AH (AP bs) (Hpat bs) sel vs X b1 b2 rest p n Hsel Hcnt Hvs HXs Hb1 Hb2 H Hn)
         as (sel' & vs' & E & [Hj Hg] & Hrels).
@@ -721,7 +721,7 @@ Qed.
 (* ---------------------------------------------------------------------------------------------- *)
 (* 4. parse (render cs t) on the fragment of depth d                                                 *)
 
-Definition nest_pattern (d : nat) (p : pattern) : bool := ml_pattern (eokn d) p.
+Definition nest_pattern (d : nat) (p : pattern) : bool := wl_pattern (eokn d) p.
 Definition nest_resource (d : nat) (t : resource) : bool := ml_resource (eokn d) t.
 
 Theorem parse_render_nest_split d cs t : nest_resource d t = true -> last_comment_ok t = true ->
@@ -775,7 +775,7 @@ Lemma variants_ok_mono (e1 e2 : expression -> bool) vs : (forall e, e1 e = true 
   forallb (variant_ok e1) vs = true -> forallb (variant_ok e2) vs = true.
 Proof.
   intros Hm H. rewrite forallb_forall in *. intros v Hv. specialize (H v Hv). destruct v as [k p d0]. unfold variant_ok in *.
-  apply andb_prop in H as [Hk Hp]. rewrite Hk, (ml_pattern_mono e1 e2 p Hm Hp). reflexivity.
+  apply andb_prop in H as [Hk Hp]. rewrite Hk, (wl_pattern_mono e1 e2 p Hm Hp). reflexivity.
 Qed.
 
 Lemma classes_mono d : (forall i, aokn d i = true -> aokn (S d) i = true) /\ (forall e, eokn d e = true -> eokn (S d) e = true).
@@ -813,7 +813,7 @@ Proof. induction 1 as [|d' _ IH]; [exact (fun H => H)|]. intros H. apply (proj2 
 Theorem nest_resource_mono d d' t : d <= d' -> nest_resource d t = true -> nest_resource d' t = true.
 Proof.
   intros Hle. unfold nest_resource. rewrite <- !ml_resource_g. apply g_resource_mono. intros els.
-  unfold ml_pok. apply ml_pattern_mono. intros e. apply (eokn_le d d' e Hle).
+  unfold ml_pok. apply wl_pattern_mono. intros e. apply (eokn_le d d' e Hle).
 Qed.
 
 (* the classes of RoundTripSel.v (call arguments: simple inline expressions only) *)
@@ -842,28 +842,29 @@ Qed.
 Theorem sel_resource_nest d t : sel_resource d t = true -> nest_resource (S d) t = true.
 Proof.
   unfold sel_resource, nest_resource. rewrite <- !ml_resource_g. apply g_resource_mono. intros els.
-  unfold ml_pok. apply ml_pattern_mono, eokd_eokn.
+  unfold ml_pok. apply wl_pattern_mono, eokd_eokn.
 Qed.
 
 (* ---------------------------------------------------------------------------------------------- *)
 (* 6. ALL layouts                                                                                   *)
 
 (* `nest_layout d t bs`: bs is a layout of the tree t.  The relation (EntryLoop.gresource_layout over
-   RoundTripML.ml_value_layout and the layouts etextn d of the placeables) allows far more than the choices of
+   RoundTripML.wl_value_layout and the layouts etextn d of the placeables) allows far more than the choices of
    Render.v: ANY number of blank lines (each with any number of spaces) at the start and between entries (at least
    the number the grammar requires after a stand-alone comment), any number of spaces around '=', any indentation
    >= 1 of attribute lines and of the continuation lines of a value (the same for all lines of the value), a value
-   that starts on the line of the '=' or on a later line, blanks of any length (spaces, line breaks) inside braces,
+   that starts on the line of the '=' (only if one of its continuation lines is not indented deeper than its first
+   line, or it has one line) or on a later line (only if its first byte is not a dot, an opening bracket or an asterisk), blanks of any length (spaces, line breaks) inside braces,
    brackets and parentheses, LF or CRLF at every line end, with or without a final line end *)
-Definition nest_layout (d : nat) (t : resource) (bs : bytes) : Prop := gresource_layout (ml_value_layout (etextn d)) t bs.
+Definition nest_layout (d : nat) (t : resource) (bs : bytes) : Prop := gresource_layout (wl_value_layout (etextn d)) t bs.
 
 Theorem parse_layout_nest_split d t bs : nest_resource d t = true -> nest_layout d t bs ->
   exists t', parse bs = Done (t', []) /\ Forall2 (rel_entry (srel (goodn d))) t' t.
 Proof.
   intros Ht HL. destruct (facts_alln d) as (_ & R & J & W & P).
-  apply (g_parse_layout (ml_pok (eokn d)) (ml_value_layout (etextn d)) (srel (goodn d)) t bs).
-  - intros els V T used c nx p n Hp. apply (get_pattern_ml (eokn d) (etextn d) (goodn d) R J P bs els V T used c nx p n Hp).
-  - intros els V Hp. apply (ml_value_layout_strip (eokn d) (etextn d) els V Hp).
+  apply (g_parse_layout (ml_pok (eokn d)) (wl_value_layout (etextn d)) (srel (goodn d)) t bs).
+  - intros els V T used c nx p n Hp. apply (get_pattern_wl (eokn d) (etextn d) (goodn d) R J P bs els V T used c nx p n Hp).
+  - intros els V Hp. apply (wl_value_layout_strip (eokn d) (etextn d) els V Hp).
   - rewrite ml_resource_g. exact Ht.
   - exact HL.
 Qed.
@@ -879,7 +880,6 @@ Qed.
 Theorem render_nest_layout d cs t : nest_resource d t = true -> last_comment_ok t = true -> nest_layout d t (render cs t).
 Proof.
   intros Ht Hl. destruct (facts_alln d) as (_ & R & J & W & P).
-  apply (g_render_layout (ml_pok (eokn d)) (ml_value_layout (etextn d)) (fun _ _ => True)); [| rewrite ml_resource_g; exact Ht | exact Hl].
-  intros ind els cs0 Hp Hind. destruct (ml_pattern_parts (eokn d) els Hp) as (_ & Hs & _).
-  apply (render_value_ml_layout (eokn d) (etextn d) R ind els cs0 Hs Hind).
+  apply (g_render_layout (ml_pok (eokn d)) (wl_value_layout (etextn d)) (fun _ _ => True)); [| rewrite ml_resource_g; exact Ht | exact Hl].
+  intros ind els cs0 Hp Hind. apply (render_value_wl_layout (eokn d) (etextn d) (goodn d) R P ind els cs0 Hp Hind).
 Qed.
